@@ -616,7 +616,7 @@ fn gen_where(rng: &mut Rng, sch: &Schema, st: &TState, allow_dead: bool) -> Opti
     }
 }
 
-fn gen_sets(rng: &mut Rng, sch: &Schema, allow_mix: bool) -> Vec<(usize, Expr)> {
+fn gen_sets(rng: &mut Rng, sch: &Schema, allow_mix: bool, nn_null_pct: u64) -> Vec<(usize, Expr)> {
     let n = sch.ncols();
     let first = if sch.keyed() { 1 } else { 0 };
     let mut cols: Vec<usize> = (first..n).collect();
@@ -627,7 +627,7 @@ fn gen_sets(rng: &mut Rng, sch: &Schema, allow_mix: bool) -> Vec<(usize, Expr)> 
         let ty = sch.tys[c];
         let same: Vec<usize> = (0..n).filter(|j| sch.tys[*j] == ty).collect();
         let e = match rng.below(10) {
-            0..=4 => Expr::Lit(gen_cell(rng, ty, if sch.nn[c] { 3 } else { 15 })),
+            0..=4 => Expr::Lit(gen_cell(rng, ty, if sch.nn[c] { nn_null_pct } else { 15 })),
             5..=6 => Expr::Col(*rng.pick(&same)),
             _ => if ty == ColTy::Int {
                 let ints: Vec<usize> = (0..n).filter(|j| sch.tys[*j] == ColTy::Int).collect();
@@ -656,7 +656,7 @@ fn gen_stmt(rng: &mut Rng, sch: &Schema, st: &TState, prof: Profile) -> Stmt {
         let n = match rng.below(10) { 0..=4 => 1, 5..=7 => 2, 8 => 3, _ => 4 + rng.below(3) as usize };
         let mut rows: Vec<Vec<Val>> = vec![];
         let fail_at = if (prof == Profile::Failing && rng.chance(1, 2)) || (prof == Profile::Dirty && rng.chance(1, 6)) || (prof == Profile::Clean && rng.chance(1, 25)) { Some(rng.below(n as u64) as usize) } else { None };
-        let fail_at = if prof == Profile::Clean { fail_at.map(|_| 0) } else { fail_at };
+        let fail_at = if prof == Profile::Clean || (prof == Profile::Failing && rng.chance(1, 2)) { fail_at.map(|_| 0) } else { fail_at };
         for i in 0..n {
             let mut taken = used.clone();
             taken.extend(rows.iter().map(|r| r[0].clone()));
@@ -674,7 +674,7 @@ fn gen_stmt(rng: &mut Rng, sch: &Schema, st: &TState, prof: Profile) -> Stmt {
     }
     if roll < ins_share + 26 { return Stmt::Delete { w: gen_where(rng, sch, st, dirty), ret }; }
     if roll < 96 || prof == Profile::Failing {
-        let sets = gen_sets(rng, sch, dirty);
+        let sets = gen_sets(rng, sch, dirty, if prof == Profile::Failing { 35 } else { 3 });
         if sets.is_empty() { return Stmt::Delete { w: gen_where(rng, sch, st, dirty), ret }; }
         return Stmt::Update { sets, w: gen_where(rng, sch, st, dirty), ret };
     }
@@ -701,7 +701,7 @@ pub fn gen_history(rng: &mut Rng, prof: Profile, len: usize) -> (Schema, Vec<Stm
             if !defined(&sch, &st, &s) { continue; }
             let (k, _) = st.clone().step(&sch, &s);
             if prof == Profile::Clean && k != 0 { continue; }
-            if prof == Profile::Failing && k != 0 && k != 4 { continue; }
+            if prof == Profile::Failing && (k == 1 || k == 2 || k == 3) { continue; }
             chosen = Some(s);
             break;
         }
